@@ -2,8 +2,9 @@
    hypothesis [no_pushback] of the script theorem, for a default session
    (dispatch d_lookup / d_lookup_scan / d_waits over Gen/C17_Bindings.v).
 
-   "special" rows: those whose handler may end the prompt (effects 13 14 15)
-   or feeds a key press (20).  Computed on the table: a special row cannot
+   "special" rows: those whose handler may end the prompt (effects 13 14 15 21
+   22, and 98 = unmodelled handler mentioning exit) or feeds a key press (20,
+   and 97 = unmodelled handler mentioning feed).  Computed on the table: a special row cannot
    match keys lying strictly inside a longer row; feeding rows are exactly the
    single-key C-j rows.  Hence, in one activation of the coroutine, a special
    row can only fire on the whole buffer (exact branch) - after which the
@@ -14,7 +15,9 @@ From PTK Require Import Lib.Py Gen.C03_AnsiSequences Gen.C17_Bindings Model.C03_
 Import ListNotations.
 Open Scope Z_scope.
 
-Definition special_eff (x : Z) : bool := (x =? 13) || (x =? 14) || (x =? 15) || (x =? 20).
+(* 13 14 15 21 22: handlers that end the prompt; 20: C-j feeds a key; 97 / 98: handlers outside the
+   modelled classes whose source mentions feed( / exit( *)
+Definition special_eff (x : Z) : bool := existsb (Z.eqb x) [13; 14; 15; 20; 21; 22; 97; 98].
 Definition special_row (r : row) : bool := special_eff (r_eff r).
 
 Definition special_criterion : bool :=
@@ -160,12 +163,11 @@ Qed.
 (* handlers: only special rows end the prompt or feed *)
 Lemma eff_special b ks e : special_eff (snd b) = false -> snd (e_eff b ks e) = None /\ e_feeds b ks e = [].
 Proof.
-  intros H. unfold special_eff in H.
-  apply orb_false_elim in H. destruct H as [H H20]. apply orb_false_elim in H. destruct H as [H H15].
-  apply orb_false_elim in H. destruct H as [H13 H14].
-  split; [|unfold e_feeds; rewrite H20; reflexivity].
-  unfold e_eff. destruct (snd b) as [|x|x]; try reflexivity.
-  do 6 (try (destruct x as [x|x|]; try reflexivity)); cbn in *; try discriminate.
+  intros H. split.
+  - unfold e_eff. destruct (snd b) as [|x|x]; try reflexivity.
+    do 8 (try (destruct x as [x|x|]; try reflexivity)); cbn in H; try discriminate.
+  - unfold e_feeds. destruct (snd b =? 20) eqn:E20; [|reflexivity].
+    apply Z.eqb_eq in E20. rewrite E20 in H. cbn in H. discriminate.
 Qed.
 
 Lemma eff_exit_nofeed b ks e x : snd (e_eff b ks e) = Some x -> e_feeds b ks e = [].
@@ -343,4 +345,71 @@ Lemma script_real_table_bytes ls e r lines rs :
 Proof.
   exact (@script estate bid result vstate d_lookup d_lookup_scan d_waits e_eff e_is_cprh d_cpr_lookup e_feeds
            e_restart read_keys flush_keys REof d_cpr_silent d_no_pushback ls e vinit r lines rs).
+Qed.
+
+(* ---------------------------------------------------------------------- *)
+(* [deep] (a fed key whose own handler feeds again: the model stops following)
+   is never set by an activation on the real table: the only fed key press is
+   ControlM, and no feeding row can match it. *)
+
+Lemma loop_deep fuel : forall fl (c : dcore), deep (dloop fuel fl c) = deep c.
+Proof.
+  induction fuel as [|f IH]; intros fl c; cbn [loop].
+  - destruct (kbuf c); reflexivity.
+  - destruct (kbuf c) as [|k0 tl0]; [reflexivity|].
+    assert (R : forall c1 : dcore, deep c1 = deep c -> deep (retry (dloop f false) c1) = deep c).
+    { intros c1 H. unfold retry. destruct (late c1); [exact H|rewrite IH; exact H]. }
+    destruct (cph c); [| |reflexivity].
+    + destruct (negb fl && d_waits (est c) (k0 :: tl0)); [reflexivity|].
+      destruct (d_lookup (est c) (k0 :: tl0)); [reflexivity|].
+      destruct (scan d_lookup_scan (length (k0 :: tl0)) c) as [[x i]|]; apply R; reflexivity.
+    + destruct (negb fl && d_waits (est c) (k0 :: tl0)); [reflexivity|].
+      destruct (d_lookup (est c) (k0 :: tl0)); [reflexivity|].
+      destruct (scan d_lookup_scan (length (k0 :: tl0)) c) as [[x i]|]; apply R; reflexivity.
+Qed.
+
+Lemma deliver_deep it (c : dcore) : deep (ddeliver it c) = deep c.
+Proof.
+  destruct it as [k|]; cbn [deliver]; [|unfold send; rewrite loop_deep; reflexivity].
+  destruct (is_cpr k); [|unfold send; rewrite loop_deep; reflexivity].
+  unfold handle_cpr. destruct (d_cpr_lookup (est c)); reflexivity.
+Qed.
+
+(* ControlM alone in the buffer: whatever fires, nothing is fed *)
+Lemma send_ent_pb (c : dcore) : cph c = CRun result -> pb c = [] -> kbuf c = [] -> pb (dsend (IKey ENT) c) = [].
+Proof.
+  intros PH P KE. unfold send. rewrite KE. cbn [length app loop kbuf set_kbuf cph est]. rewrite PH.
+  destruct (negb false && d_waits (est c) [ENT]); [exact P|].
+  destruct (d_lookup (est c) [ENT]) as [b|] eqn:LK.
+  - cbn [pb set_kbuf call]. rewrite P, app_nil_r. unfold e_feeds.
+    destruct (snd b =? 20) eqn:E20; [|reflexivity]. exfalso.
+    destruct (lookup_row _ _ _ LK) as (r & RI & RM & RE). apply Z.eqb_eq in E20. rewrite E20 in RE.
+    rewrite (crit_feed r RI RE) in RM. vm_compute in RM. discriminate.
+  - cbn [length scan firstn kbuf set_kbuf est]. rewrite (lookup_none_scan _ _ LK).
+    unfold retry, late. cbn [cph set_kbuf add_ev]. rewrite PH. cbn [loop kbuf set_kbuf]. exact P.
+Qed.
+
+Theorem d_no_deep (c : dcore) it : cph c = CRun result -> pb c = [] ->
+  (kbuf c = [] \/ d_waits (est c) (kbuf c) = true) -> deep (ddeliver_d it c) = deep c.
+Proof.
+  intros PH P K. unfold deliver_d.
+  pose proof (deliver_res it c PH P K) as (NB & DN & SH).
+  destruct (cph (ddeliver it c)) eqn:PC; [|apply deliver_deep|apply deliver_deep].
+  destruct SH as [SH|(SH & KE & _)]; rewrite SH; cbn [drain].
+  - cbn [deep clear_pb]. apply deliver_deep.
+  - set (c1 := clear_pb (ddeliver it c)).
+    assert (E1 : pb (ddeliver (IKey ENT) c1) = []).
+    { cbn [deliver]. change (is_cpr ENT) with false. cbv iota. apply send_ent_pb; [exact PC|reflexivity|exact KE]. }
+    rewrite E1. destruct (cph (ddeliver (IKey ENT) c1)); cbn [drain deep set_pb]; rewrite deliver_deep; cbn [deep clear_pb]; apply deliver_deep.
+Qed.
+
+(* queue-level conservation on the real table, for every label sequence
+   (timeouts and close included), also over bytes *)
+Lemma conservation_real_table ls e r :
+  let s := @run estate bid result vstate d_lookup d_lookup_scan d_waits e_eff e_is_cprh d_cpr_lookup e_feeds
+                e_restart read_keys flush_keys REof ls (@init estate bid result vstate e vinit r) in
+  nc (rpops (co s)) ++ nc (ikeys (store s)) ++ nc (ikeys (queue s)) = nc (decoded s) /\ pb (co s) = [].
+Proof.
+  exact (@queue_conservation estate bid result vstate d_lookup d_lookup_scan d_waits e_eff e_is_cprh d_cpr_lookup e_feeds
+           e_restart read_keys flush_keys REof d_cpr_silent d_no_pushback ls e vinit r).
 Qed.
